@@ -413,6 +413,8 @@ impl Pager {
     /// - **NO-STEAL:** Dirty pages are not written to disk immediately upon modification unless eviction occurs.
     /// - **NO-FORCE:** Writes to disk do not happen automatically at transaction commit; only when evicted.
     fn cache_frame(&mut self, frame: MemFrame) -> io::Result<PageId> {
+        #[cfg(feature = "verif")]
+        crate::verif::locktap::name_frame(&frame);
         let id = frame.page_number();
         if let Some(evicted) = self.cache.insert(frame)? {
             let evicted_id = evicted.page_number();
